@@ -32,7 +32,10 @@ type zzTplAttr struct {
 	selector           bool   // nodeSelector {k: v}
 	selectorEmptyValue bool   // ... or {k: ""}: matches a node carrying the label with an empty value, not one lacking it
 	affinityOp         string // "" none, In, NotIn, Exists, DoesNotExist (on key k, values [v])
-	tolerates          string // "" none, "k" = tolerates taint key k (Exists, any effect)
+	// tolerates: "" none; "k" = tolerates taint key k (Exists, any effect); "k-second" = two tolerations of key
+	// k, the first for another value only, the second Exists (the taint is tolerated by the second one);
+	// "wild-noexecute" = one toleration without key (Exists) restricted to the NoExecute effect
+	tolerates string
 	// fieldShape: what else the required node affinity contains besides the expression on key k:
 	// "" nothing; "and-name-in" / "and-name-notin": the same term also has matchFields
 	// metadata.name In / NotIn [node0]; "or-name-in": a second (ORed) term matchFields metadata.name In [node0]
@@ -89,7 +92,10 @@ func zzTaintTolerated(key string, effect corev1.TaintEffect, t zzTplAttr) bool {
 	if effect != corev1.TaintEffectNoSchedule && effect != corev1.TaintEffectNoExecute {
 		return true
 	}
-	if t.tolerates == key {
+	if (t.tolerates == "k" || t.tolerates == "k-second") && key == zzLabelKey {
+		return true
+	}
+	if t.tolerates == "wild-noexecute" && effect == corev1.TaintEffectNoExecute {
 		return true
 	}
 	// tolerations every daemon pod gets: not-ready is tolerated for NoExecute only
@@ -131,8 +137,13 @@ func zzTemplateFor(tpl zzTplAttr) *datadoghqv1alpha1.ExtendedDaemonSetReplicaSet
 		}
 		rs.Spec.Template.Spec.Affinity = &corev1.Affinity{NodeAffinity: &corev1.NodeAffinity{RequiredDuringSchedulingIgnoredDuringExecution: &corev1.NodeSelector{NodeSelectorTerms: terms}}}
 	}
-	if tpl.tolerates != "" {
+	switch tpl.tolerates {
+	case "k":
 		rs.Spec.Template.Spec.Tolerations = []corev1.Toleration{{Key: zzLabelKey, Operator: corev1.TolerationOpExists}}
+	case "k-second":
+		rs.Spec.Template.Spec.Tolerations = []corev1.Toleration{{Key: zzLabelKey, Operator: corev1.TolerationOpEqual, Value: "another-value"}, {Key: zzLabelKey, Operator: corev1.TolerationOpExists}}
+	case "wild-noexecute":
+		rs.Spec.Template.Spec.Tolerations = []corev1.Toleration{{Operator: corev1.TolerationOpExists, Effect: corev1.TaintEffectNoExecute}}
 	}
 	return rs
 }
@@ -207,8 +218,13 @@ func zzPickTplAttr() zzTplAttr {
 	case "DoesNotExist":
 		tpl.affinityOp = "DoesNotExist"
 	}
-	if nondet.Bool("tpl.tolerates") {
-		tpl.tolerates = zzLabelKey
+	switch nondet.String("tpl.tolerates", "", "k", "k-second", "wild-noexecute") {
+	case "k":
+		tpl.tolerates = "k"
+	case "k-second":
+		tpl.tolerates = "k-second"
+	case "wild-noexecute":
+		tpl.tolerates = "wild-noexecute"
 	}
 	switch nondet.String("tpl.affinityFields", "", "and-name-in", "and-name-notin", "or-name-in") {
 	case "and-name-in":
